@@ -2,6 +2,7 @@ package props
 
 import (
 	"fmt"
+	"runtime/debug"
 	"sync/atomic"
 
 	"github.com/ulikunitz/xz"
@@ -140,12 +141,14 @@ type sinkBuf struct{ b []byte }
 func (s *sinkBuf) Write(p []byte) (int, error) { s.b = append(s.b, p...); return len(p), nil }
 
 // c18ReaderByte: a real .xz stream whose block header carries dictionary byte b (header CRC
-// re-sealed) is given to the xz reader: accepted iff b <= 40. Codes 29..40 would make the
-// reader allocate 96 MiB .. 4 GiB and are skipped (counted).
+// re-sealed) is given to the xz reader: accepted iff b <= 40. Codes 29..40 make the reader
+// allocate 96 MiB .. 4 GiB of address space; the pages are never touched (measured: 12 MB
+// resident, milliseconds), and the 256 probes run one after the other with the memory returned
+// after each large one.
 func c18ReaderByte(r *core.Run, b int) {
 	if b > 28 && b <= 40 {
-		r.Count("reader_codes_skipped_large_allocation", 1)
-		return
+		defer debug.FreeOSMemory()
+		r.Count("reader_codes_with_large_dictionary", 1)
 	}
 	cs := core.MkCase("C18", "readerbyte", map[string]int{"Byte": b})
 	plain := []byte("dictionary size byte probe")
@@ -166,7 +169,7 @@ func c18ReaderByte(r *core.Run, b int) {
 
 func runC18(r *core.Run) {
 	t := c18Table()
-	r.Rule = "complete enumeration: EncodeDictCap(n) for every n in 1..2^32-1 (sharded ranges), DecodeDictCap(c) for every byte c, plus the dictionary byte of real block headers for DictCap at every code boundary (-1,0,+1) up to 64 MiB; non-trivial = distinct (result) classes: one per code interval hit / per decode result"
+	r.Rule = "complete enumeration: EncodeDictCap(n) for every n in 1..2^32-1 (sharded ranges), DecodeDictCap(c) for every byte c, plus the dictionary byte of real block headers for DictCap at every code boundary (-1,0,+1) and at every m*2^k (m=5..15) up to 64 MiB; the xz reader on a real stream with each of the 256 dictionary bytes; non-trivial = distinct (result) classes: one per code interval hit / per decode result"
 	for c := 0; c < 40; c++ {
 		if t[c] >= t[c+1] {
 			panic("specification table not strictly increasing")
@@ -230,6 +233,15 @@ func runC18(r *core.Run) {
 			n := t[c] + d
 			if n >= 4096 && n <= 64<<20 {
 				caps = append(caps, int(n))
+			}
+		}
+	}
+	// capacities in the middle of the code intervals: every n = m * 2^k with m in 5..15 (the
+	// codes themselves are m = 4, 6, 8, 12)
+	for k := uint(9); k <= 24; k++ {
+		for m := 5; m <= 15; m++ {
+			if n := m << k; n >= 4096 && n <= 64<<20 && m != 6 && m != 8 && m != 12 {
+				caps = append(caps, n)
 			}
 		}
 	}
